@@ -1,7 +1,7 @@
 """Sidecar contracts for sigpyproc (keyed by file::qualname; loops by source-order ordinal + variable)."""
 from pvc.contract import Registry
 
-MODULES = ["lemmas", "kernels_bits", "bits", "kernels_stream", "kernels_moments", "race", "fileio", "readers", "base"]
+MODULES = ["lemmas", "kernels_bits", "bits", "kernels_stream", "kernels_moments", "race", "fileio", "readers", "base", "writer", "base_writers"]
 
 
 def load_all():
@@ -14,7 +14,9 @@ def load_all():
 
 
 def configure(v):
-    v.inline_classes |= {"sigpyproc/timeseries.py::TimeSeries"}
+    v.inline_classes |= {"sigpyproc/timeseries.py::TimeSeries", "sigpyproc/io/fileio.py::FileWriter",
+                         "sigpyproc/io/bits.py::BitsInfo"}
+    v.inline_ok |= {"sigpyproc/io/fileio.py::FileBase.__init__", "sigpyproc/io/fileio.py::FileWriter.write"}
     """Functions that are executed symbolically at the call site (tiny, pure, real bodies)."""
     v.inline_ok |= {"sigpyproc/core/kernels.py::update_moments", "sigpyproc/core/kernels.py::update_moments_basic",
                     "sigpyproc/io/fileio.py::FileBase._close_current",
